@@ -19,6 +19,10 @@ def pkAfter (pk : List String) : Stmt → List String
   | .dropColumn _ c => pk.filter (· != c)
   | _ => pk
 
+def fksAfter (fks : List FkSpec) : Stmt → List FkSpec
+  | .dropColumn _ c => fks.filter (·.col != c)
+  | _ => fks
+
 theorem after_of_none (s : Stmt) (h : dropName s = none) (idxs : List IdxSpec) (pk : List String) :
     idxsAfter idxs s = idxs ∧ pkAfter pk s = pk := by
   cases s <;> simp [dropName] at h <;> exact ⟨rfl, rfl⟩
@@ -29,12 +33,21 @@ theorem after_of_some (s : Stmt) (c : String) (h : dropName s = some c) (idxs : 
   subst h
   exact ⟨rfl, rfl⟩
 
+theorem fksAfter_of_none (s : Stmt) (h : dropName s = none) (fks : List FkSpec) : fksAfter fks s = fks := by
+  cases s <;> simp [dropName] at h <;> rfl
+
+theorem fksAfter_of_some (s : Stmt) (c : String) (h : dropName s = some c) (fks : List FkSpec) :
+    fksAfter fks s = fks.filter (·.col != c) := by
+  cases s <;> simp [dropName] at h
+  subst h
+  rfl
+
 /-- bridge, with the rest of the table: a column statement about table `t` changes its columns as `colExec` says, its
     indexes and primary key as DROP COLUMN's clean-up says -/
 theorem exec_of_colExec_full (db : DB) (t : String) (tb : TableSpec) (hf : db.find t = some tb) (s : Stmt)
     (hst : s.table = t) (hpk : s.defNoPk = true) (cols' : List ColSpec) (hc : colExec tb.cols s = some cols') :
     ∃ tb', exec false db s = some (db.replace tb') ∧ tb'.name = tb.name ∧ tb'.cols = cols' ∧
-      tb'.idxs = idxsAfter tb.idxs s ∧ tb'.pk = pkAfter tb.pk s := by
+      tb'.idxs = idxsAfter tb.idxs s ∧ tb'.pk = pkAfter tb.pk s ∧ tb'.fks = fksAfter tb.fks s := by
   cases s with
   | addColumn t' c pos =>
     have : t' = t := hst
@@ -54,15 +67,15 @@ theorem exec_of_colExec_full (db : DB) (t : String) (tb : TableSpec) (hf : db.fi
       | none =>
         simp only at hc
         have := Option.some.inj hc; subst this
-        exact ⟨_, rfl, rfl, rfl, rfl, rfl⟩
+        exact ⟨_, rfl, rfl, rfl, rfl, rfl, rfl⟩
       | first =>
         simp only at hc
         have := Option.some.inj hc; subst this
-        exact ⟨_, rfl, rfl, rfl, rfl, rfl⟩
+        exact ⟨_, rfl, rfl, rfl, rfl, rfl, rfl⟩
       | after p =>
         simp only at hc
         simp only [hc]
-        exact ⟨_, rfl, rfl, rfl, rfl, rfl⟩
+        exact ⟨_, rfl, rfl, rfl, rfl, rfl, rfl⟩
   | dropColumn t' c =>
     have : t' = t := hst
     subst this
@@ -72,7 +85,7 @@ theorem exec_of_colExec_full (db : DB) (t : String) (tb : TableSpec) (hf : db.fi
       have := Option.some.inj hc; subst this
       have hcol : tb.hasCol c = true := by unfold TableSpec.hasCol; exact hany
       simp only [exec, hf, hcol, Bool.not_true, Bool.false_eq_true, if_false, Bool.false_and]
-      exact ⟨_, rfl, rfl, rfl, rfl, rfl⟩
+      exact ⟨_, rfl, rfl, rfl, rfl, rfl, rfl⟩
     · cases hc
   | modifyColumn t' c =>
     have : t' = t := hst
@@ -87,7 +100,7 @@ theorem exec_of_colExec_full (db : DB) (t : String) (tb : TableSpec) (hf : db.fi
       simp only [exec, hf]
       rw [hco]
       simp only [hcol, Bool.not_true, Bool.false_eq_true, if_false, Bool.false_and]
-      exact ⟨_, rfl, rfl, rfl, rfl, rfl⟩
+      exact ⟨_, rfl, rfl, rfl, rfl, rfl, rfl⟩
     · cases hc
   | _ => simp [colExec] at hc
 
@@ -100,14 +113,16 @@ theorem execAll_of_colExecAll_full : ∀ (ss : List Stmt) (db : DB) (t : String)
     ∃ db' tb', execAll false db ss = some db' ∧ db'.find t = some tb' ∧ tb'.cols = cols' ∧ tb'.name = tb.name ∧
       tb'.idxs = (ss.filterMap dropName).foldl (fun l c => Abs.Idx.dropColIdx c l) tb.idxs ∧
       tb'.pk = tb.pk.filter (fun c => !(ss.filterMap dropName).contains c) ∧
+      tb'.fks = tb.fks.filter (fun f => !(ss.filterMap dropName).contains f.col) ∧
       (∀ u, u ≠ t → db'.find u = db.find u) ∧ db'.map (·.name) = db.map (·.name) := by
   intro ss
   induction ss with
   | nil =>
     intro db t tb cols' _ hf _ hc
     simp only [colExecAll] at hc
-    refine ⟨db, tb, rfl, hf, Option.some.inj hc, rfl, rfl, ?_, fun _ _ => rfl, rfl⟩
-    exact (List.filter_eq_self.mpr (fun _ _ => rfl)).symm
+    refine ⟨db, tb, rfl, hf, Option.some.inj hc, rfl, rfl, ?_, ?_, fun _ _ => rfl, rfl⟩
+    · exact (List.filter_eq_self.mpr (fun _ _ => rfl)).symm
+    · exact (List.filter_eq_self.mpr (fun _ _ => rfl)).symm
   | cons s rest ih =>
     intro db t tb cols' hnd hf hss hc
     simp only [colExecAll] at hc
@@ -117,14 +132,14 @@ theorem execAll_of_colExecAll_full : ∀ (ss : List Stmt) (db : DB) (t : String)
       rw [h1] at hc
       simp only [Option.bind_some] at hc
       obtain ⟨hst, hpk⟩ := hss s (by simp)
-      obtain ⟨tb1, he1, hn1, hc1, hi1, hp1⟩ := exec_of_colExec_full db t tb hf s hst hpk c1 h1
+      obtain ⟨tb1, he1, hn1, hc1, hi1, hp1, hk1⟩ := exec_of_colExec_full db t tb hf s hst hpk c1 h1
       obtain ⟨i, hi, hname⟩ := find_getElem db t tb hf
       obtain ⟨hf1, _, hnames1⟩ := ReaderMysql.find_replace db hnd i tb tb1 hi hn1
       rw [hname] at hf1
       have hnd1 : ((db.replace tb1).map (·.name)).Nodup := by rw [hnames1]; exact hnd
-      obtain ⟨db', tb', he', hf', hc', hn', hi', hp', hother, hnames'⟩ := ih (db.replace tb1) t tb1 cols' hnd1 hf1
+      obtain ⟨db', tb', he', hf', hc', hn', hi', hp', hk', hother, hnames'⟩ := ih (db.replace tb1) t tb1 cols' hnd1 hf1
         (fun s' hs' => hss s' (List.mem_cons_of_mem _ hs')) (by rw [hc1]; exact hc)
-      refine ⟨db', tb', ?_, hf', hc', hn'.trans hn1, ?_, ?_, ?_, hnames'.trans hnames1⟩
+      refine ⟨db', tb', ?_, hf', hc', hn'.trans hn1, ?_, ?_, ?_, ?_, hnames'.trans hnames1⟩
       · simp only [execAll, he1, Option.bind_some]; exact he'
       · rw [hi', hi1, List.filterMap_cons]
         cases hd : dropName s with
@@ -139,6 +154,15 @@ theorem execAll_of_colExecAll_full : ∀ (ss : List Stmt) (db : DB) (t : String)
           apply List.filter_congr
           intro x _
           by_cases hx : x = c <;> simp [hx]
+      · rw [hk', hk1, List.filterMap_cons]
+        cases hd : dropName s with
+        | none => simp only; rw [fksAfter_of_none s hd tb.fks]
+        | some c =>
+          simp only
+          rw [fksAfter_of_some s c hd tb.fks, List.filter_filter]
+          apply List.filter_congr
+          intro x _
+          by_cases hx : x.col = c <;> simp [hx]
       · intro u hu
         rw [hother u hu]
         exact find_replace_other db tb1 u (by rw [hn1, hname]; exact hu)
@@ -305,7 +329,7 @@ theorem colsEquiv_names : ∀ (a b : List ColSpec), colsEquiv a b = true → a.m
     (referential checks aside), are well-formed at every step; afterwards the table has the new side's columns (same
     names, order, types, options up to order), the new side's indexes up to order and its primary key, and every other
     table is untouched. -/
-theorem table_spec_up (g : Globals) (hg : g.dialect = .mysql) (hio : g.ignoreOrder = false) (rc : Bool)
+theorem table_spec_up_any (g : Globals) (hg : g.dialect = .mysql) (hio : g.ignoreOrder = false) (rc : Bool)
     (old new : List Stmt) (dbO dbN : DB) (ho : old.all Stmt.elemSafe = true) (hn : new.all Stmt.elemSafe = true)
     (hpo : old.all Stmt.plainOpts = true) (hpn : new.all Stmt.plainOpts = true)
     (heo : execAll rc [] old = some dbO) (hen : execAll rc [] new = some dbN)
@@ -319,10 +343,11 @@ theorem table_spec_up (g : Globals) (hg : g.dialect = .mysql) (hio : g.ignoreOrd
       ∀ s ∈ tbN.idxs, ∀ o ∈ tbO.idxs, o.name = s.name → o ≠ s → ∃ c ∈ o.cols, c ∉ dc) :
     ∃ td ∈ d.tables, td.name = t ∧
       ∃ cs dc is, td.migrationColumnUp g = .ok (cs, dc) ∧ td.migrationIndexUp g dc = .ok is ∧
-        ∃ db' tb', execAll false dbO (cs ++ is) = some db' ∧ db'.find t = some tb' ∧
+        ∀ db0 : DB, (db0.map (·.name)).Nodup → db0.find t = some tbO →
+        ∃ db' tb', execAll false db0 (cs ++ is) = some db' ∧ db'.find t = some tb' ∧
           colsEquiv tb'.cols tbN.cols = true ∧ tb'.idxs.Perm tbN.idxs ∧
-          tb'.pk = tbN.pk ∧
-          (∀ u, u ≠ t → db'.find u = dbO.find u) ∧ db'.map (·.name) = dbO.map (·.name) := by
+          tb'.pk = tbN.pk ∧ tb'.name = t ∧ (tbO.fks = [] → tb'.fks = []) ∧
+          (∀ u, u ≠ t → db'.find u = db0.find u) ∧ db'.map (·.name) = db0.map (·.name) := by
   have hoc : old.all Stmt.colSafe = true :=
     List.all_eq_true.mpr (fun s hs => Stmt.colSafe_of_elemSafe s (List.all_eq_true.mp ho s hs))
   have hnc : new.all Stmt.colSafe = true :=
@@ -381,19 +406,22 @@ theorem table_spec_up (g : Globals) (hg : g.dialect = .mysql) (hio : g.ignoreOrd
   have hwfO : tbO.WF := execAll_wf rc old [] dbO hoc wf_empty heo tbO (mem_of_find hfo)
   -- run the column statements
   subst hcs' hdc'
-  obtain ⟨db1, tb1, he1, hf1, hc1, hn1, hi1, hp1, hother1, hnames1⟩ :=
-    execAll_of_colExecAll_full _ dbO t tbO cols' hnd hfo hss hex
   have hdrop : (Table.walkCols g t true [] td3.cols).1.filterMap dropName = (Table.walkCols g t true [] td3.cols).2 :=
     (Table.walkCols_dropNames g hg t td3.cols []).symm
+  have hpkN : tbN.PkIn := execAll_pkin rc new [] dbN hnc pkin_empty hen tbN (mem_of_find hfn)
+  obtain ⟨R, hR, hperm⟩ := hcorr (hredef _ hdcN)
+  refine ⟨td3, htd, hname, _, _, is, hcs, his, ?_⟩
+  intro db0 hnd0 hf0
+  obtain ⟨db1, tb1, he1, hf1, hc1, hn1, hi1, hp1, hfk1, hother1, hnames1⟩ :=
+    execAll_of_colExecAll_full _ db0 t tbO cols' hnd0 hf0 hss hex
   rw [hdrop] at hi1 hp1
   have hi1' : tb1.idxs = Abs.Idx.prune (Table.walkCols g t true [] td3.cols).2 tbO.idxs := by
     rw [hi1]; exact Abs.Idx.dropCols_idxs _ tbO.idxs (fun i hi => (hwfO i hi).1)
   -- run the index statements
-  obtain ⟨R, hR, hperm⟩ := hcorr (hredef _ hdcN)
   have hnames : tb1.colNames = tbN.colNames := by
     show tb1.cols.map (·.name) = tbN.cols.map (·.name)
     rw [hc1]; exact colsEquiv_names _ _ heq
-  have hnd1 : (db1.map (·.name)).Nodup := by rw [hnames1]; exact hnd
+  have hnd1 : (db1.map (·.name)).Nodup := by rw [hnames1]; exact hnd0
   obtain ⟨db2, he2, hf2, hother2, hnames2⟩ := execAll_idx is db1 t tb1 R hnd1 hf1 hisIdx (by
       intro i hi
       rw [hproj] at hi
@@ -401,18 +429,50 @@ theorem table_spec_up (g : Globals) (hg : g.dialect = .mysql) (hio : g.ignoreOrd
       refine ⟨(hwfN i hiN).1, fun c hc' => ?_⟩
       rw [hnames]; exact (hwfN i hiN).2 c hc') (by rw [hi1']; exact hR)
   -- the primary key names columns of the new table: none of them is dropped
-  have hpkN : tbN.PkIn := execAll_pkin rc new [] dbN hnc pkin_empty hen tbN (mem_of_find hfn)
   have hpkfin : tb1.pk = tbN.pk := by
     rw [hp1, hpk]
     apply List.filter_eq_self.mpr
     intro c hc
-    have : c ∉ (Table.walkCols g t true [] td3.cols).2 := fun hcd => hdcN c hcd (hpkN c hc)
+    have : c ∉ (Table.walkCols g t true [] td3.cols).2 := fun hcd => hdcN c hcd (hpkN.1 c hc)
     simpa using this
-  refine ⟨td3, htd, hname, _, _, is, hcs, his, db2, { tb1 with idxs := R }, ?_, hf2, ?_, hperm, hpkfin, ?_, hnames2.trans hnames1⟩
+  have hnameO : tbO.name = t := by
+    obtain ⟨_, _, hn0⟩ := find_getElem db0 t tbO hf0
+    exact hn0
+  refine ⟨db2, { tb1 with idxs := R }, ?_, hf2, ?_, hperm, hpkfin, hn1.trans hnameO, ?_, ?_, hnames2.trans hnames1⟩
   · rw [execAll_append, he1]; exact he2
   · show colsEquiv tb1.cols tbN.cols = true
     rw [hc1]; exact heq
+  · intro hno
+    show tb1.fks = []
+    rw [hfk1, hno]; rfl
   · intro u hu
     rw [hother2 u hu, hother1 u hu]
+
+/-- `table_spec_up_any` on the old schema itself -/
+theorem table_spec_up (g : Globals) (hg : g.dialect = .mysql) (hio : g.ignoreOrder = false) (rc : Bool)
+    (old new : List Stmt) (dbO dbN : DB) (ho : old.all Stmt.elemSafe = true) (hn : new.all Stmt.elemSafe = true)
+    (hpo : old.all Stmt.plainOpts = true) (hpn : new.all Stmt.plainOpts = true)
+    (heo : execAll rc [] old = some dbO) (hen : execAll rc [] new = some dbN)
+    (d : Migration) (hd : loadAndDiff g old new = .ok d)
+    (t : String) (tbO tbN : TableSpec) (hfo : dbO.find t = some tbO) (hfn : dbN.find t = some tbN)
+    (hc : Abs.OrderCompatible tbN.colNames tbO.colNames) (hne : ∀ n ∈ tbN.colNames ++ tbO.colNames, n ≠ "")
+    (hncO : ∀ c ∈ tbO.cols, ∀ k ∈ c.opts, k.noComment = true)
+    (hncN : ∀ c ∈ tbN.cols, ∀ k ∈ c.opts, k.noComment = true)
+    (hpk : tbO.pk = tbN.pk)
+    (hredef : ∀ dc : List String, (∀ c ∈ dc, c ∉ tbN.colNames) →
+      ∀ s ∈ tbN.idxs, ∀ o ∈ tbO.idxs, o.name = s.name → o ≠ s → ∃ c ∈ o.cols, c ∉ dc) :
+    ∃ td ∈ d.tables, td.name = t ∧
+      ∃ cs dc is, td.migrationColumnUp g = .ok (cs, dc) ∧ td.migrationIndexUp g dc = .ok is ∧
+        ∃ db' tb', execAll false dbO (cs ++ is) = some db' ∧ db'.find t = some tb' ∧
+          colsEquiv tb'.cols tbN.cols = true ∧ tb'.idxs.Perm tbN.idxs ∧
+          tb'.pk = tbN.pk ∧
+          (∀ u, u ≠ t → db'.find u = dbO.find u) ∧ db'.map (·.name) = dbO.map (·.name) := by
+  have hoc : old.all Stmt.colSafe = true :=
+    List.all_eq_true.mpr (fun s hs => Stmt.colSafe_of_elemSafe s (List.all_eq_true.mp ho s hs))
+  obtain ⟨mo, _, hro⟩ := ReaderMysql.run_rel rc old {} [] dbO Rel.empty hoc heo
+  obtain ⟨td, h1, h2, cs, dc, is, h3, h4, h5⟩ := table_spec_up_any g hg hio rc old new dbO dbN ho hn hpo hpn heo hen d hd
+    t tbO tbN hfo hfn hc hne hncO hncN hpk hredef
+  obtain ⟨db', tb', e1, e2, e3, e4, e5, _, _, e6, e7⟩ := h5 dbO hro.nodup hfo
+  exact ⟨td, h1, h2, cs, dc, is, h3, h4, db', tb', e1, e2, e3, e4, e5, e6, e7⟩
 
 end Sqlize
